@@ -162,6 +162,10 @@ class World:
             elif k == 'reopen':
                 if self.kind != 'M':
                     ops.append(('reopen',))
+            elif k == 'reopenx':
+                # reopen without the index file: full scan of the data file
+                if self.kind != 'M':
+                    ops.append(('reopenx',))
             elif k == 'restore':
                 ops += self._restore_ops(spec, live, unused)
             elif k == 'pack':
@@ -222,11 +226,13 @@ class World:
         if k == 'back':
             self.next_tick = -10.0
             return 'back'
-        if k == 'reopen':
+        if k in ('reopen', 'reopenx'):
             self.tick()
             self.storage.close()
+            if k == 'reopenx' and os.path.exists(self.path + '.index'):
+                os.unlink(self.path + '.index')
             self.open()
-            return 'reopen'
+            return k
         self.tick()
         if k == 'pack':
             from ZODB.serialize import referencesf
